@@ -154,6 +154,15 @@ def run(chk):
             chk.ok("C17.table", rwi, "rewrite branch: method = GET, body dropped, Content-Length removed")
         else:
             chk.violation("C17.table", rwi, norm.raw(rwi.test), "method = GET; data = None; pop Content-Length", "the rewrite branch keeps the body or its length header")
+        # the body's framing and the payload object go with the body
+        if "chunked = None" in body or "chunked = False" in body:
+            chk.ok("C17.table", rwi, "rewrite branch: the chunked flag is reset together with the body")
+        else:
+            chk.violation("C17.table", rwi, norm.raw(rwi.test), "chunked = None", "a chunked POST redirected with 301/302/303 becomes a body-less GET that still writes the chunked terminator `0\\r\\n\\r\\n` after its header block, without a Transfer-Encoding header: the target server reads it as a malformed next request")
+        if "await req._body.close()" in body:
+            chk.ok("C17.release", rwi, "rewrite branch: the dropped payload is closed")
+        else:
+            chk.violation("C17.release", rwi, norm.raw(rwi.test), "await req._body.close()", "the payload of a request whose body is dropped by a 301/302/303 redirect (e.g. an open file) is never closed")
         keep = [s for s in rwi.orelse if isinstance(s, ast.Assign) and norm.raw(s) == "data = req._body"]
         ref = [n for n, c in K.raises_in(ast.Module(body=rwi.orelse, type_ignores=[])) if c == "ClientPayloadError"]
         if keep and ref and PC.has_lit(PC.pc(ref[0], stop=rwi), "req._body.consumed", True) is not None and ref[0].lineno < keep[0].lineno:
@@ -170,12 +179,36 @@ def run(chk):
             chk.violation("C17.limit", red, pat, "", f"{what} vanished")
     tm = [n for n, c in K.raises_in(red) if c == "TooManyRedirects"]
     redlits = {str(l) for l in PC.units(norm.cnf_raw(red.test, True))}
-    if tm and {str(l) for l in PC.units(PC.pc(tm[0], stop=red))} - redlits == {"(max_redirects)", "!(redirects < max_redirects)"}:
+    tmu = {str(l) for l in PC.units(PC.pc(tm[0], stop=red))} - redlits if tm else set()
+    # besides the limit test itself only outcomes of earlier exits that did not fire (negative literals, e.g. "there is a Location") may occur
+    if tm and {"(max_redirects)", "!(redirects < max_redirects)"} <= tmu and all(x.startswith("!(") for x in tmu - {"(max_redirects)"}):
         tn = [n for n in g.nodes if n.kind == "test" and "redirects >= max_redirects" in norm.raw(n.ast)]
         K.must_pass(chk, "C17.limit", rq, None, lambda n: n in tn, "the max_redirects test is evaluated on every path to the next hop", start_edges=[(r, "T") for r in rtest],
                     targets=lambda n: n in conts, construct="continue (next hop)", missing="if max_redirects and redirects >= max_redirects")
     else:
         chk.violation("C17.limit", red, "if max_redirects and redirects >= max_redirects: raise TooManyRedirects", "", "the redirect limit test changed (off by one, or not raised)")
+    # only a response that is actually followed is a hop: the "no Location" exit comes before the counter, the history and the refusals
+    noloc = [n for n in g.nodes if n.kind == "test" and n.in_finally_copy is None and "r_url is None" in norm.raw(n.ast) or (n.kind == "test" and norm.raw(n.ast) in ("r_url", "not r_url"))]
+    hist = K.nodes_matching(rq, "history.append(resp)")
+    if noloc and hist:
+        pth = g.find_path(None, lambda n: n in hist, lambda n: n in noloc, EXPLICIT, [(r, "T") for r in rtest])
+        if pth is None:
+            chk.ok("C17.limit", hist[0].ast, "a 30x without Location leaves the loop before it is counted, recorded in history or refused as a redirect")
+        else:
+            chk.violation("C17.limit", hist[0].ast, "history.append(resp)", "after the `Location is None: break` test",
+                          "a 30x response without Location (returned to the caller as the final response) is first counted and put into its own history, and can raise a spurious TooManyRedirects / `consumed body` error although nothing would be followed", path=g.fmt_path(pth))
+    else:
+        chk.analysis_error("C17.limit: Location test / history record not found in the redirect branch")
+    # the Location is validated completely inside the guard: with encoded=True yarl defers netloc validation to the first access
+    urls = [s for s in ast.walk(red) if isinstance(s, ast.Assign) and isinstance(s.value, ast.Call) and norm.raw(s.value.func) == "URL" and any(k.arg == "encoded" for k in s.value.keywords)]
+    for u in urls:
+        tr = next((t for t in prog.enclosing(u, (ast.Try,)) if prog.in_body_of(u, t, "body") and any("ValueError" in PC.handler_types(h) for h in t.handlers)), None)
+        tname = norm.raw(u.targets[0])
+        forced = tr is not None and any(isinstance(n, ast.Attribute) and n.attr in ("port", "host", "authority", "explicit_port") and norm.raw(n.value) == tname for st_ in tr.body for n in ast.walk(st_))
+        if forced:
+            chk.ok("C17.entry", u, f"the redirect target `{tname}` has its netloc validated inside the ValueError guard")
+        else:
+            chk.violation("C17.entry", u, K.short(u, 70), f"{tname}.port inside the try", "with requote_redirect_url=False the Location is parsed with encoded=True, which defers netloc validation: `Location: http://b.test:abc/` passes every guard and the next hop raises a bare ValueError (not a ClientError) from server-controlled input")
     inc = [s for s in ast.walk(red) if isinstance(s, ast.AugAssign) and norm.raw(s) == "redirects += 1"]
     if inc and tm and inc[0].lineno < tm[0].lineno:
         chk.ok("C17.limit", inc[0], "the counter is incremented before it is compared (at most max_redirects requests)")
